@@ -5,8 +5,10 @@ import ObiVerif.Model.Writer
 
 reader (any partition of the input into numbered batches) → N workers applying a per-record function
 (batches come out in any order) → formatting workers → writer (re-sequencing buffer).  The command's
-bytes are what the writer emits.  Aggregating commands (obicount) fold a commutative monoid over the
-batches in arrival order.
+bytes are what the writer emits.  Aggregating commands (obicount, obisummary) fold a commutative monoid
+over the batches in arrival order, each worker into its own accumulator, the accumulators being merged
+at the end.  Commands with two outputs (obigrep --save-discarded, obimultiplex -u) and dispatching
+commands (obidistribute) feed several writers from `DivideOn` / `Distribute`.
 -/
 namespace ObiVerif.Command
 open ObiVerif.Iter ObiVerif.Writer
@@ -23,5 +25,75 @@ def commandOutput (fmt : Rec → Bytes) (arrW : List Batch) : Bytes :=
 /-- an aggregating command (obicount): three counters summed over the batches in arrival order -/
 def countOutput (cnt : Rec → Nat × Nat × Nat) (arr : List Batch) : Nat × Nat × Nat :=
   arr.foldl (fun acc b => b.2.foldl (fun a r => (a.1 + (cnt r).1, a.2.1 + (cnt r).2.1, a.2.2 + (cnt r).2.2)) acc) (0, 0, 0)
+
+/-! ## JSON output (`FormatJSONBatch` + `WriteJSON`) -/
+
+/-- `FormatJSONBatch`: the objects of the batch joined by `,\n` (no separator after the last one) -/
+def joinSep (sep : Bytes) : List Bytes → Bytes
+  | [] => []
+  | [t] => t
+  | t :: ts => t ++ sep ++ joinSep sep ts
+
+def jsonBatchText (obj : Rec → Bytes) (b : Batch) : Nat × Bytes := (b.1, joinSep sepJson (b.2.map obj))
+
+/-- a record-wise command writing JSON: `[\n`, the chunks separated by `,\n`, `\n]\n` -/
+def commandJson (obj : Rec → Bytes) (arrW : List Batch) : Bytes :=
+  writeJson (arrW.map (jsonBatchText obj))
+
+/-! ## CSV output: the formatter puts the header in front of batch 0 only -/
+
+def csvBatchText (header : Bytes) (row : Rec → Bytes) (b : Batch) : Nat × Bytes :=
+  (b.1, if b.1 = 0 then header ++ (b.2.map row).flatten else (b.2.map row).flatten)
+
+def commandCsv (header : Bytes) (row : Rec → Bytes) (arrW : List Batch) : Bytes :=
+  writeRaw (arrW.map (csvBatchText header row))
+
+/-! ## Two outputs (`DivideOn`): kept records to one writer, discarded records to another -/
+
+/-- `arr` is the arrival order at `DivideOn`; `pT`/`pF` re-order the batches of the two streams on their way
+to their writers (the theorems quantify over them) -/
+def divideOutputs (p : Rec → Bool) (size : Nat) (fmt : Rec → Bytes) (arr : List Batch)
+    (pT pF : List Batch → List Batch) : Bytes × Bytes :=
+  (commandOutput fmt (pT (divideOn p size arr).1), commandOutput fmt (pF (divideOn p size arr).2))
+
+/-! ## Dispatching command (`Distribute` + one writer per class) -/
+
+/-- the file of class `key` -/
+def distributeFile (cls : Rec → Nat) (size : Nat) (fmt : Rec → Bytes) (key : Nat) (arr : List Batch)
+    (pK : List Batch → List Batch) : Bytes :=
+  commandOutput fmt (pK (distributeKey cls size key arr))
+
+/-! ## Aggregating commands: a fold per worker, then a merge of the workers' accumulators -/
+
+/-- what one worker accumulates over the batches it receives (in the order it receives them) -/
+def aggWorker {σ : Type} (upd : σ → Rec → σ) (init : σ) (bs : List Batch) : σ :=
+  bs.foldl (fun acc b => b.2.foldl upd acc) init
+
+/-- `shares` = for each worker, the batches it took from the channel, in order; the partial results are
+merged from worker 0 on (`rep = rep.Add(summaries[i])`) -/
+def aggOutput {σ : Type} (upd : σ → Rec → σ) (merge : σ → σ → σ) (init : σ) (shares : List (List Batch)) : σ :=
+  (shares.map (aggWorker upd init)).foldl merge init
+
+/-- map-valued counters (`map[string]int` of obisummary): association list kept sorted by key, keys being
+natural numbers (any injective coding of the strings) -/
+abbrev Counters := List (Nat × Nat)
+
+/-- `plusUpdateIntMap` -/
+def addKey (k n : Nat) : Counters → Counters
+  | [] => [(k, n)]
+  | (k', m) :: t =>
+    if k = k' then (k', m + n) :: t
+    else if k < k' then (k, n) :: (k', m) :: t
+    else (k', m) :: addKey k n t
+
+/-- `sumUpdateIntMap(m1, m2)` -/
+def mergeCounters (a b : Counters) : Counters := b.foldl (fun m kv => addKey kv.1 kv.2 m) a
+
+/-- `DataSummary.Update`: the record contributes `cnt r` (key, increment) pairs -/
+def summaryUpd (cnt : Rec → Counters) (acc : Counters) (r : Rec) : Counters := mergeCounters acc (cnt r)
+
+/-- obisummary: `ISummary` -/
+def summaryOutput (cnt : Rec → Counters) (init : Counters) (shares : List (List Batch)) : Counters :=
+  (shares.map (aggWorker (summaryUpd cnt) [])).foldl mergeCounters init
 
 end ObiVerif.Command
